@@ -50,6 +50,8 @@ TABLE = {
                                 ("src/bounds/userboundslist.rs", r"fn has_negative_indices\b", 0), ("src/bounds/userboundslist.rs", r"pub fn is_forward_only\b", 0),
                                 ("src/bounds/userboundslist.rs", r"pub fn unpack\b", 0), ("src/bounds/userboundslist.rs", r"pub fn complement\b", 0),
                                 ("src/bounds/userboundslist.rs", r"pub fn parse_bounds_list\b", 0)],
+    "Tuc.Model.RegexLit": [("src/cut_str.rs", r"fn fill_with_fields_locations_using_regex\b", 0), ("src/cut_str.rs", r"fn compress_delimiter_with_regex\b", 0),
+                           ("src/cut_str.rs", r"fn trim_regex\b", 0)],
     "Tuc.Model.OptLit": [("src/stream.rs", r"fn try_from\b", 0), ("src/stream.rs", r"fn try_from\b", 1), ("src/stream.rs", r"fn get_last_bound\b", 0),
                          ("src/stream.rs", r"pub fn read_and_cut_bytes_stream\b", 0), ("src/stream.rs", r"fn print_field\b", 0), ("src/stream.rs", r"fn print_bof\b", 0),
                          ("src/fast_lane.rs", r"fn try_from\b", 0), ("src/options.rs", r"fn from_str\b", 0), ("src/bin/tuc.rs", r"fn main\b", 0)],
